@@ -7,6 +7,7 @@ package transport
 import (
 	"bytes"
 	"fmt"
+	"net"
 	"sync"
 	"testing"
 	"time"
@@ -22,7 +23,7 @@ import (
 type c02Case struct {
 	Hidden bool `json:"hidden"`
 	Msg    int  `json:"msg"`  // index of the handshake datagram that is altered (-1: none)
-	Kind   int  `json:"kind"` // 0 xor mask at offset, 1 truncate to Len, 2 extend by Len bytes (informational), 3 replace by the same-numbered datagram of another handshake, 4 truncate to Len after the complete datagram was first sent to the same receiver from a third address (primes its read buffer)
+	Kind   int  `json:"kind"` // 0 xor mask at offset, 1 truncate to Len, 2 extend by Len bytes (informational), 3 replace by the same-numbered datagram of another handshake, 4 truncate to Len after the complete datagram was first sent to the same receiver from a third address (primes its read buffer), 5 session id overwritten (below), 6 the last Cut bytes removed from a datagram whose removed bytes EQUAL what the receiver's buffer already holds at those offsets (below)
 	Off    int  `json:"off"`
 	Mask   int  `json:"mask"`
 	Len    int  `json:"len"`
@@ -33,6 +34,16 @@ type c02Case struct {
 	// certificate policies of the two parties (indices into c02CliPolicies / c02SrvPolicies; 0 = CA store, the default)
 	CliPol int `json:"cliPolicy,omitempty"`
 	SrvPol int `json:"srvPolicy,omitempty"`
+	// kind 6: a receiver that parses beyond the bytes it received sees whatever its buffer held before - the tail of an
+	// earlier datagram, of a message it wrote itself, or the zeros of a fresh buffer - so a truncation is masked exactly
+	// when the removed bytes equal that residue. The harness cannot choose the bytes of a handshake message (they are MACs
+	// and ciphertext), but it chooses WHICH handshake it truncates: up to Attempts successive handshakes of fresh clients run
+	// against one server; the harness keeps an image of the receiver's buffer (client: one buffer per handshake through
+	// which every datagram it sends and receives passes from offset 0; server: one read buffer for all peers), lets every
+	// handshake pass unaltered whose Msg-th datagram does not end in the residue, and removes the last Cut bytes of the
+	// first one that does. That handshake is the case; the oracle is the same as for every truncation.
+	Cut      int `json:"cut,omitempty"`
+	Attempts int `json:"attempts,omitempty"`
 }
 
 // Certificate policies under which an honest handshake of the fixture identities completes. The statement quantifies over
@@ -136,7 +147,110 @@ type c02Outcome struct {
 	client   *SessionState
 	setupFailed    bool // the other handshake of the scenario did not get to the state the case asks for
 	sidOverwritten bool // kind 5: the session-id field was replaced by a different id
+	// kind 6
+	noQualifying bool   // no handshake of this batch had a Msg-th datagram ending in the receiver's residue
+	attempt      int    // which handshake was truncated
+	residue      []byte // the bytes that were removed (= what the receiver's buffer held there)
+	unaltered    string // an UNALTERED handshake of the batch failed: its description
 }
+
+// c02Grind runs handshakes first..first+n-1 of a kind-6 case against one fresh server (see c02Case.Cut).
+func c02Grind(c c02Case, v *vlib.Verdict, serial, first, n int) (out c02Outcome) {
+	scfg, ccfg := c02Configs(c)
+	env := vStartServer(scfg)
+	defer env.Stop()
+	if c.Msg < 0 || c.Msg >= len(c02MsgNames[c.Hidden]) || c.Cut <= 0 {
+		out.setupFailed = true
+		return out
+	}
+	toClient := c.Msg%2 == 1
+	var mu sync.Mutex
+	srvImg := make([]byte, 65535) // the server's read buffer, shared by all peers
+	var cliImg []byte             // the current client's handshake buffer
+	var cur *net.UDPAddr
+	idx, truncated := 0, false
+	env.Net.Filter = func(d simnet.Datagram) []simnet.Datagram {
+		mu.Lock()
+		defer mu.Unlock()
+		if cur != nil && vIsHandshake(d.Data) && (simnetEq(d.Src, cur) || simnetEq(d.Dst, cur)) {
+			k := idx
+			idx++
+			out.lens = append(out.lens, len(d.Data))
+			if simnetEq(d.Src, cur) {
+				copy(cliImg, d.Data) // the client wrote it into its handshake buffer
+			}
+			if k == c.Msg && !truncated && c.Cut < len(d.Data) {
+				img := srvImg
+				if toClient {
+					img = cliImg
+				}
+				if l := len(d.Data) - c.Cut; bytes.Equal(d.Data[l:], img[l:len(d.Data)]) {
+					out.residue = append([]byte(nil), d.Data[l:]...)
+					d.Data = d.Data[:l]
+					truncated = true
+				}
+			}
+			if simnetEq(d.Dst, cur) {
+				copy(cliImg, d.Data)
+			}
+		}
+		if simnetEq(d.Dst, vSrvAddr) {
+			copy(srvImg, d.Data)
+		}
+		return []simnet.Datagram{d}
+	}
+	for a := first; a < first+n; a++ {
+		mu.Lock()
+		cur = simnet.Addr("10.0.0.2", 42000+a%20000)
+		cliImg = make([]byte, 65535)
+		idx, out.lens = 0, nil
+		mu.Unlock()
+		cli, _ := env.NewClient(cur, ccfg(false))
+		hsDone := make(chan error, 1)
+		go func() { hsDone <- cli.Handshake() }()
+		var cliErr error
+		select {
+		case cliErr = <-hsDone:
+		case <-time.After(20 * time.Second):
+			cli.Close()
+			if cliErr = <-hsDone; cliErr == nil {
+				cliErr = fmt.Errorf("handshake did not return within 20 virtual seconds")
+			}
+		}
+		mu.Lock()
+		tr := truncated
+		mu.Unlock()
+		h, err := env.Srv.AcceptTimeout(3 * time.Second)
+		if tr {
+			out.attempt, out.cliErr, out.cliDone = a, cliErr, cliErr == nil
+			if out.cliDone {
+				out.client = cli.ss
+			}
+			if err == nil && h != nil {
+				out.accepted, out.server = h, h.ss
+			}
+			cli.Close()
+			return out
+		}
+		// an unaltered handshake: it completes, and it is an independent session like any other
+		if cliErr != nil || err != nil || h == nil {
+			out.unaltered = fmt.Sprintf("handshake #%d of the batch (unaltered): client err %v, accepted %v", a, cliErr, err == nil && h != nil)
+			cli.Close()
+			return out
+		}
+		c02NoteKeys(v, fmt.Sprintf("case%d-attempt%d", serial, a), cli.ss.clientToServerKey, cli.ss.serverToClientKey)
+		h.Close()
+		cli.Close()
+		if !v.OK() {
+			return out
+		}
+	}
+	out.noQualifying = true
+	return out
+}
+
+// c02GrindBatch: handshakes per bubble of a kind-6 case (one server each; bounds the real time of one bubble).
+const c02GrindBatch = 200
 
 // c02Handshake runs one client handshake against a fresh server; alter is applied to the Msg-th handshake datagram.
 func c02Handshake(c c02Case, v *vlib.Verdict, serial int) (out c02Outcome) {
@@ -279,7 +393,18 @@ func c02Run(t *testing.T) func(c c02Case, v *vlib.Verdict) {
 		c02Serial++
 		serial := c02Serial
 		var out c02Outcome
-		res := vlib.Bubble(t, 60*time.Second, func() { out = c02Handshake(c, v, serial) })
+		var res vlib.BubbleResult
+		if c.Kind == 6 {
+			for first := 0; first == 0 || first < c.Attempts; first += c02GrindBatch {
+				n := min(c02GrindBatch, max(c.Attempts-first, 1))
+				res = vlib.Bubble(t, 240*time.Second, func() { out = c02Grind(c, v, serial, first, n) })
+				if res.Hung || res.Panic != "" || !out.noQualifying || !v.OK() {
+					break
+				}
+			}
+		} else {
+			res = vlib.Bubble(t, 60*time.Second, func() { out = c02Handshake(c, v, serial) })
+		}
 		if res.Hung {
 			v.Inconclusive = "bubble hung in real time (C02)"
 			return
@@ -335,6 +460,19 @@ func c02Run(t *testing.T) func(c c02Case, v *vlib.Verdict) {
 			v.Discard = true
 			return
 		}
+		if c.Kind == 6 {
+			v.Label(fmt.Sprintf("truncate-tail-equal-to-receiver-buffer:%s:cut=%d", names[c.Msg], c.Cut))
+			if out.unaltered != "" {
+				v.Failf("C02:honest-handshake-fails:in-a-sequence-on-one-server", "an unaltered %s handshake did not complete: %s", map[bool]string{false: "discoverable", true: "hidden"}[c.Hidden], out.unaltered)
+				return
+			}
+			if out.noQualifying {
+				// chance decides (1 in 256^Cut per handshake): nothing was altered, nothing to judge
+				v.Label(fmt.Sprintf("truncate-tail-equal-to-receiver-buffer:no-qualifying-handshake-in-%d", c.Attempts))
+				return
+			}
+			v.Label("truncate-tail-equal-to-receiver-buffer:qualifying-handshake-found")
+		}
 		name := names[c.Msg]
 		toClient := c.Msg%2 == 1
 		altered := true
@@ -347,17 +485,19 @@ func c02Run(t *testing.T) func(c c02Case, v *vlib.Verdict) {
 			altered = true
 		case 5:
 			altered = c02HasSessionID(c.Hidden, c.Msg) && out.sidOverwritten
+		case 6:
+			altered = out.residue != nil
 		}
 		if !altered {
 			v.Discard = true
 			return
 		}
-		kind := []string{"xor", "truncate", "extend", "transplant", "truncate-after-priming", "session-id-of-other-session"}[c.Kind]
+		kind := []string{"xor", "truncate", "extend", "transplant", "truncate-after-priming", "session-id-of-other-session", "truncate-tail-equal-to-receiver-buffer"}[c.Kind]
 		if c.Kind == 5 && c.Pending && !c.Hidden {
 			kind = "session-id-of-pending-handshake"
 		}
 		v.NonTrivial = true
-		v.Key = fmt.Sprintf("%v/%s/%s/%d/%d/%d/%v/%s/%s", c.Hidden, name, kind, c.Off, c.Mask, c.Len, c.Same, cliPol, srvPol)
+		v.Key = fmt.Sprintf("%v/%s/%s/%d/%d/%d/%v/%s/%s", c.Hidden, name, kind, c.Off, c.Mask, c.Len+c.Cut, c.Same, cliPol, srvPol)
 		v.Label(map[bool]string{false: "discoverable", true: "hidden"}[c.Hidden] + ":" + name + ":" + kind)
 		// The certificate policy of the party that wrongly completed goes into the signature only when it matters: the
 		// same alteration is run again under the default policies, and the suffix is dropped if it is accepted there too.
@@ -413,7 +553,11 @@ func c02Run(t *testing.T) func(c c02Case, v *vlib.Verdict) {
 			if toClient {
 				who = "client"
 			}
-			v.Failf(fmt.Sprintf("C02:altered-handshake-completes:%s:%s%s", name, kind, polSig(toClient)), "%s completed the handshake although %s was altered (%s off=%d mask=%#x len=%d of %d bytes; client policy %s, server policy %s)", who, name, kind, c.Off, c.Mask, c.Len, out.lens[c.Msg], cliPol, srvPol)
+			extra := ""
+			if c.Kind == 6 {
+				extra = fmt.Sprintf("; handshake #%d on this server, the last %d byte(s) %x were removed - equal to what the receiver's buffer held at those offsets", out.attempt, c.Cut, out.residue)
+			}
+			v.Failf(fmt.Sprintf("C02:altered-handshake-completes:%s:%s%s", name, kind, polSig(toClient)), "%s completed the handshake although %s was altered (%s off=%d mask=%#x len=%d of %d bytes; client policy %s, server policy %s%s)", who, name, kind, c.Off, c.Mask, c.Len, out.lens[c.Msg], cliPol, srvPol, extra)
 		}
 	}
 }
@@ -493,6 +637,12 @@ func TestVerifC02Sweep(t *testing.T) {
 				if !emit(c02Case{Hidden: hidden, Msg: m, Kind: 2, Len: k}) {
 					return
 				}
+			}
+			// the last byte removed from a handshake whose last byte equals what the receiver's buffer already holds
+			// there (1 handshake in 256: up to 2400 handshakes are tried, a miss has probability 0.01 %; two bytes
+			// would need ~65000 handshakes)
+			if !emit(c02Case{Hidden: hidden, Msg: m, Kind: 6, Cut: 1, Attempts: 2400}) {
+				return
 			}
 			for _, same := range []bool{false, true} {
 				if !emit(c02Case{Hidden: hidden, Msg: m, Kind: 3, Same: same}) {
